@@ -301,9 +301,9 @@ func runC20One(c C20Case) string {
 	vals, valid, witness := c20Source(c.Doc)
 	if c.Doc2 != nil && !c.Stdin {
 		// two input files: the output holds the values of both, in order
-		vals2, valid2, _ := c20Source(c.Doc2)
+		vals2, valid2, witness2 := c20Source(c.Doc2)
 		if !valid || !valid2 {
-			harnessBug("C20: a second input file is only generated next to two valid documents")
+			return runC20TwoBad(st, c, valid, witness, valid2, witness2)
 		}
 		vals = append(append([]model.Value{}, vals...), vals2...)
 	}
@@ -411,6 +411,52 @@ func runC20One(c C20Case) string {
 	return ""
 }
 
+// runC20TwoBad: two input files of which at least one is invalid. Every file the
+// reference rejects (for a catalogued reason) gets an entry of its own in the
+// error report, naming that file -- also when both fail in the same way at the
+// same place.
+func runC20TwoBad(st *Stats, c C20Case, valid, witness, valid2, witness2 bool) string {
+	st.Eval(true, model.DigestBytes("c20 two-bad "+c.Format, append(append([]byte{}, c.Doc...), c.Doc2...)), "format."+c.Format, "input.two-files-invalid",
+		map[bool]string{true: "two-files.same-document", false: "two-files.different-documents"}[bytes.Equal(c.Doc, c.Doc2)])
+	st.Sample(func() string { return fmt.Sprintf("-f %s via two files: %s | %s", c.Format, showDoc(c.Doc), showDoc(c.Doc2)) })
+	r := runCLI(c)
+	desc := func() string {
+		return fmt.Sprintf("\ncommand: ion-go process -f %s in.ion in2.ion\ninput 1: %s\ninput 2: %s\nstderr/stdout: %q\nerror report: %q", c.Format, showDoc(c.Doc), showDoc(c.Doc2), clip(r.stderr, 600), clip(r.errReport, 600))
+	}
+	if bytes.Contains(r.stderr, []byte("panic:")) || bytes.Contains(r.stderr, []byte("goroutine ")) || bytes.Contains(r.stderr, []byte("fatal error")) {
+		return "ion-go process panicked" + desc()
+	}
+	if r.exit != 0 {
+		return fmt.Sprintf("ion-go process exited with status %d (%v)", r.exit, r.runErr) + desc()
+	}
+	if (!valid && !witness) || (!valid2 && !witness2) {
+		return "" // validity of one file undecided: only "no crash" is judged
+	}
+	res, err := reftext.Parse(r.errReport, reftext.Options{})
+	if err != nil {
+		return fmt.Sprintf("the error report is not valid Ion text: %v", err) + desc()
+	}
+	for i, bad := range []bool{!valid, !valid2} {
+		if !bad {
+			continue
+		}
+		name := []string{"in.ion", "in2.ion"}[i]
+		found := false
+		for _, v := range res.Values {
+			if _, ok := field(v, "error_type"); !ok || v.Kind != model.Struct {
+				continue
+			}
+			if loc, ok := field(v, "location"); ok && loc.Kind == model.String && strings.HasSuffix(loc.Text, string(os.PathSeparator)+name) {
+				found = true
+			}
+		}
+		if !found {
+			return fmt.Sprintf("input file %d (%s) is invalid but the error report has no entry for it", i+1, name) + desc()
+		}
+	}
+	return ""
+}
+
 func genC20(t *rapid.T) C20Case {
 	c := C20Case{Format: "*", Stdin: gen.Chance(t, 40)}
 	if gen.Chance(t, 30) {
@@ -419,6 +465,17 @@ func genC20(t *rapid.T) C20Case {
 	switch gen.Intn(t, 10) {
 	case 0, 1:
 		c.Doc = genC07(t).Doc // edited (mostly invalid) documents
+		if !c.Stdin && gen.Chance(t, 35) {
+			// a second input file: the same document again, or another edited one
+			if gen.Chance(t, 50) {
+				c.Doc2 = append([]byte{}, c.Doc...)
+			} else {
+				c.Doc2 = genC07(t).Doc
+			}
+			if c.Doc2 == nil {
+				c.Doc2 = []byte{}
+			}
+		}
 	case 2:
 		h := c10History(t, false, false)
 		if len(h.Catalog) == 0 {
